@@ -298,6 +298,9 @@ func judgeFill(rep *vh.Report, stream string, idx int, kc *fcCase, run *fcRun) (
 	for _, l := range lists {
 		gset[l.Group] = true
 		rep.Count("fills_"+nz(l.Outcome, "inflight"), 1)
+		if l.ErrKind != "" {
+			rep.Count("fills_error_"+l.ErrKind, 1)
+		}
 	}
 	for _, o := range ops {
 		if o.Group != "" {
